@@ -152,6 +152,10 @@ func AppendSpare(k int) {}
 // the assertion would be violable"). Natively a no-op.
 func Sat(label string, cond bool) {}
 
+// Native reports whether the harness runs natively (false under the engine): for the few harnesses whose engine side is
+// a directive (vf.CutLoop) and whose native twin has to reach the same state by other means.
+func Native() bool { return true }
+
 func Assume(b bool) {
 	if !b {
 		panic("vf.Assume violated natively: model does not satisfy harness assumption")
